@@ -333,6 +333,68 @@ fn grid_cycle(e: &mut Emit) {
     e.line("done");
 }
 
+/// Takeover from a foreign handler installed with unusual flags: the library's handler must stay the
+/// disposition over several deliveries and after every action is gone. One child per cell.
+const PREV_FLAGS: [(i32, &str); 6] = [
+    (libc::SA_RESETHAND, "SA_RESETHAND"),
+    (libc::SA_NODEFER, "SA_NODEFER"),
+    (libc::SA_ONSTACK, "SA_ONSTACK"),
+    (libc::SA_NOCLDSTOP | libc::SA_NOCLDWAIT, "SA_NOCLDSTOP|SA_NOCLDWAIT"),
+    (libc::SA_RESETHAND | libc::SA_NODEFER | libc::SA_ONSTACK, "SA_RESETHAND|SA_NODEFER|SA_ONSTACK"),
+    (libc::SA_RESTART, "SA_RESTART"),
+];
+const PREV_SIGS: [i32; 3] = [libc::SIGUSR1, libc::SIGURG, libc::SIGCHLD];
+
+fn grid_prev_flags(cell: usize, e: &mut Emit) {
+    extern "C" fn f1(_: libc::c_int) {
+        note(50);
+    }
+    extern "C" fn f3(_: libc::c_int, _: *mut libc::siginfo_t, _: *mut libc::c_void) {
+        note(50);
+    }
+    let (fi, rest) = (cell % PREV_FLAGS.len(), cell / PREV_FLAGS.len());
+    let (si, info) = (rest % PREV_SIGS.len(), rest / PREV_SIGS.len() == 1);
+    let s = PREV_SIGS[si];
+    reg::verif::reset_registry(false);
+    take_runlog();
+    unsafe {
+        let mut sa: libc::sigaction = std::mem::zeroed();
+        sa.sa_sigaction = if info { f3 as usize } else { f1 as usize };
+        sa.sa_flags = PREV_FLAGS[fi].0 | if info { libc::SA_SIGINFO } else { 0 };
+        libc::sigaction(s, &sa, std::ptr::null_mut());
+    }
+    let disp = || -> String {
+        let (h, flags) = unsafe {
+            let mut sa: libc::sigaction = std::mem::zeroed();
+            libc::sigaction(s, std::ptr::null(), &mut sa);
+            (sa.sa_sigaction, sa.sa_flags)
+        };
+        if h == reg::verif::handler_address() && flags & libc::SA_RESTART != 0 && flags & libc::SA_SIGINFO != 0 && flags & libc::SA_RESETHAND == 0 {
+            "ours".to_string()
+        } else {
+            format!("handler={:#x}{} flags={:#x}", h, if h == reg::verif::handler_address() { "(the library's)" } else { "" }, flags)
+        }
+    };
+    let id = unsafe { reg::register(s, || note(1)) }.unwrap();
+    e.line(&format!("after-register {}", disp()));
+    for k in 0..3 {
+        e.line(&format!("progress delivering {}", k));
+        unsafe {
+            libc::raise(s);
+        }
+        e.line(&format!("delivery {} ran={:?} {}", k, take_runlog(), disp()));
+    }
+    reg::unregister(id);
+    for k in 3..5 {
+        e.line(&format!("progress delivering {}", k));
+        unsafe {
+            libc::raise(s);
+        }
+        e.line(&format!("delivery {} ran={:?} {}", k, take_runlog(), disp()));
+    }
+    e.line("done");
+}
+
 fn grid_restart(e: &mut Emit) {
     reset_all();
     let s = libc::SIGUSR1;
@@ -373,15 +435,18 @@ pub fn run(tier: Tier) -> BResult {
     }
     let n = prefixes.len();
     let pre2 = prefixes.clone();
-    let probes = run_cells(n + 3, 16, Duration::from_secs(if tier == Tier::Quick { 50 } else { 900 }), move |i, e| {
+    let nprev = PREV_FLAGS.len() * PREV_SIGS.len() * 2;
+    let probes = run_cells(n + 3 + nprev, 16, Duration::from_secs(if tier == Tier::Quick { 50 } else { 900 }), move |i, e| {
         if i < n {
             bfs_chunk(&pre2[i], depth, e)
         } else if i == n {
             grid_all_signals(e)
         } else if i == n + 1 {
             grid_cycle(e)
-        } else {
+        } else if i == n + 2 {
             grid_restart(e)
+        } else {
+            grid_prev_flags(i - n - 3, e)
         }
     });
     let mut violations = Vec::new();
@@ -450,6 +515,34 @@ pub fn run(tier: Tier) -> BResult {
         }
         None => violations.push(BViolation { message: format!("C05: restart probe child {}", r.fate.describe()), case: json!({"grid": "restart"}) }),
     }
+    for cell in 0..nprev {
+        let p = &probes[n + 3 + cell];
+        let (fi, rest) = (cell % PREV_FLAGS.len(), cell / PREV_FLAGS.len());
+        let (si, info) = (rest % PREV_SIGS.len(), rest / PREV_SIGS.len() == 1);
+        let case = json!({"grid": "takeover from a handler with flags", "signal": PREV_SIGS[si], "previous_flags": PREV_FLAGS[fi].1, "previous_convention": if info { "three-argument" } else { "one-argument" }});
+        grid_cells += 1;
+        let mut bad: Option<String> = None;
+        if p.find("after-register ") != Some("ours") {
+            bad = Some(format!("right after register the disposition is {}", p.find("after-register ").unwrap_or("?")));
+        }
+        for k in 0..5 {
+            if bad.is_some() {
+                break;
+            }
+            let want = if k < 3 { format!("ran=[50, 1] ours") } else { "ran=[50] ours".to_string() };
+            match p.find(&format!("delivery {} ", k)) {
+                Some(l) if l == want => {}
+                Some(l) => bad = Some(format!("delivery #{}: {} (expected {}: the chained handler, then the registered action{}, and the library's handler still installed with SA_RESTART|SA_SIGINFO and not one-shot)", k, l, want, if k < 3 { "" } else { " - none left" })),
+                None => bad = Some(format!("delivery #{}: the process {}", k, p.fate.describe())),
+            }
+        }
+        if bad.is_none() && (p.fate != Fate::Exited(0) || !p.has("done")) {
+            bad = Some(format!("the process {}", p.fate.describe()));
+        }
+        if let Some(m) = bad {
+            violations.push(BViolation { message: format!("C05: signal {} taken over from a {} handler installed with {}: {}", PREV_SIGS[si], if info { "three-argument" } else { "one-argument" }, PREV_FLAGS[fi].1, m), case });
+        }
+    }
     samples.push(json!({"grid_all_signals": g.lines.iter().take(3).collect::<Vec<_>>(), "cycle": c.find("cycle "), "restart": r.find("restart ")}));
     // schedules (engine A): concurrent mutators must not disturb each other's actions / signals
     let mut a_caps: Vec<serde_json::Value> = Vec::new();
@@ -490,7 +583,7 @@ pub fn run(tier: Tier) -> BResult {
         violations,
         exhaustive: caps.is_empty(),
         caps,
-        rule: format!("schedules: two mutators (on two signals / on one) + deliveries, every choice vector within the deviation bound on the real registry, final probe deliveries compared with the registered set, ids distinct; histories: explicit-state BFS to depth {} over {{register, register_sigaction on 3 signals, unregister(every id ever returned: live and stale), unregister_signal, deliver}}; states = reference-model states (per issued id: signal, live, kind) deduplicated per chunk (one chunk per 2-operation prefix); every transition is executed as a complete history on the real registry from a reset and compared step by step with the model, followed by probe deliveries of all signals and a disposition check; plus grids: all signal numbers 1..64, a 10000-step register/unregister cycle, one system-call-restart probe", depth),
+        rule: format!("schedules: two mutators (on two signals / on one) + deliveries, every choice vector within the deviation bound on the real registry, final probe deliveries compared with the registered set, ids distinct; histories: explicit-state BFS to depth {} over {{register, register_sigaction on 3 signals, unregister(every id ever returned: live and stale), unregister_signal, deliver}}; states = reference-model states (per issued id: signal, live, kind) deduplicated per chunk (one chunk per 2-operation prefix); every transition is executed as a complete history on the real registry from a reset and compared step by step with the model, followed by probe deliveries of all signals and a disposition check; plus grids: all signal numbers 1..64, a 10000-step register/unregister cycle, one system-call-restart probe, and takeover from a foreign handler installed with each of 6 flag sets (SA_RESETHAND, SA_NODEFER, SA_ONSTACK, SA_NOCLDSTOP|SA_NOCLDWAIT, the first three together, SA_RESTART) x 3 signals x both conventions followed by 5 deliveries (3 with an action, 2 with none left)", depth),
         assumptions: vec!["SigId cannot be forged: foreign ids are ids of other signals and stale ids".into(), "registry reset between histories through the cfg(sighook_verif) hook".into()],
     }
 }
